@@ -1,45 +1,55 @@
 from vf.core import Property, Harness, Unit
 
-ATT_B = Unit('att_b', description='bluetoe::server<> B1 (2 primary services 128/16 bit, auto/16/128 bit characteristic UUIDs, CCCDs, user description, '
-             'descriptor, default GAP service), B2 (attribute_handle<> on service and characteristic, attribute_handles<> with/without CCCD, gaps up to 0x3000), '
-             'B3 (primary + secondary services, include_service 16/128 bit, fixed handles), B4 (secondary + include, no fixed handles, GAP service); max_mtu_size<65>')
+DESCR = {4: 'B5: 2 primary services (128 / 16 bit UUID), auto / 16 / 128 bit characteristic UUIDs, CCCD, descriptor (10 attributes, handles 1..10)',
+         5: 'B6: attribute_handle<> on service and characteristic, attribute_handles<> with CCCD, a service that follows a fixed one; gaps 1..0x0f, 0x11..0x1f, 0x21, 0x24..0x2f, 0x31, 0x33, 0x36..0x3f (10 attributes)',
+         6: 'B7: secondary service, two primary services with include_service, fixed handles on service and characteristic (9 attributes)'}
+NATTR = {4: 10, 5: 10, 6: 9}
+UNITS = {c: Unit('att_b%d' % c, shim='shims/att_b.cpp', flags=['-DVF_BCFG=%d' % c], description=d) for c, d in DESCR.items()}
 
 REQS = [(0x04, 5), (0x08, 7), (0x08, 21), (0x10, 7), (0x10, 21)]
 
 
-def cases(tier):
-    cs = []
-    for cfg in (0, 1, 2, 3):
+def cases_for(cfg):
+    def cases(tier):
+        cs = []
         for opc, ln in REQS:
-            mtus = (23, 65) if tier == 'quick' else (23, 24, 27, 43, 65)
+            if tier == 'quick':
+                mtus = (23, 65) if (opc, ln) in ((0x04, 5), (0x08, 7)) else (23,)
+            else:
+                mtus = (23, 24, 27, 43, 65)
             for mtu in mtus:
                 cs.append({'CFG': cfg, 'MODE': 0, 'OPC': opc, 'LEN': ln, 'MTU': mtu})
         for opc, ln in REQS:
             cs.append({'CFG': cfg, 'MODE': 1, 'OPC': opc, 'LEN': ln, 'MTU': 23})
-    return cs
+        return cs
+    return cases
 
 
 PROPERTY = Property(
     'C02',
-    [Harness('c02_disc', ATT_B, 'harness/c02_disc.c', cases, unwind=24, timeout=600,
-             description='one Find Information / Read By Type / Read By Group Type request with symbolic handle range and type against the expected attribute table; '
-                         'plus the lemma that accepted responses, iterated, enumerate every match exactly once',
-             bounds='4 server configurations; request lengths 5 / 7 / 21; start, end, type UUID and the bound characteristic values fully symbolic; '
-                    'client MTU = output buffer 23 and 65 (quick) / 23, 24, 27, 43, 65 (thorough); server max MTU 65')],
+    [Harness('c02_disc_b%d' % c, UNITS[c], 'harness/c02_disc.c', cases_for(c), unwind=24,
+             unwindset=['vf_b_l2cap_input.0:%d' % (NATTR[c] + 2), 'vf_b_l2cap_input.1:%d' % (NATTR[c] + 2)], timeout=900,
+             description='one Find Information / Read By Type / Read By Group Type request with symbolic handle range and type against the expected attribute table of '
+                         + DESCR[c] + '; plus the lemma that accepted responses, iterated, enumerate every match exactly once',
+             bounds='request lengths 5 / 7 / 21; start, end, type UUID and the bound characteristic values fully symbolic; client MTU = output buffer 23 (all requests) and 65 '
+                    '(Find Information, 16 bit Read By Type) in quick / 23, 24, 27, 43, 65 in thorough; server max MTU 65; attribute loops unwound to number of attributes + 2')
+     for c in sorted(UNITS)],
     functions=['server::l2cap_input', 'server::handle_find_information_request', 'server::handle_read_by_type_request',
                'server::handle_read_by_group_type_request', 'server::check_size_and_handle_range', 'server::all_attributes', 'server::last_handle_index',
-               'server::collect_handle_uuid_tuples', 'details::collect_attributes', 'details::collect_primary_services', 'service::read_primary_service_response',
+               'server::collect_handle_uuid_tuples', 'server::write_128bit_uuid', 'details::collect_attributes', 'details::collect_primary_services', 'service::read_primary_service_response',
                'details::uuid_filter', 'details::handle_index_mapping (first_index_by_handle, handle_by_index)', 'server::attribute_at and every attribute access function of the configurations'],
-    bounds='server declarations B1..B4 (21/21/16/12 attributes); every (start,end) pair, every 2 and 16 byte type, MTU 23..65 at the listed values',
+    bounds='server declarations B5..B7 (10/10/9 attributes); every (start,end) pair, every 2 and 16 byte type, MTU 23..65 at the listed values',
     assumptions=['every attribute of the configurations is readable without encryption (permissions are C05/C06)',
                  'CCCD values are those of a fresh connection (0x0000)',
-                 'Read By Group Type: Unsupported Group Type (0x10) is accepted for every group type other than the 16 bit <<Primary Service>> (bluetoe documents that only primary services can be read by group type)',
-                 'a response may contain fewer entries than would fit (latitude of the ATT specification), but no match may be omitted before or between returned entries'],
-    explanation='for each of the four server declarations a hand-written expected attribute table (handle, type, group end, value) is the oracle; the real '
+                 'Read By Group Type: Unsupported Group Type (0x10) is accepted for every group type other than <<Primary Service>> (bluetoe documents that only primary services can be read by group type)',
+                 'a response may contain fewer entries than would fit (latitude of the ATT specification), but no match may be omitted before or between returned entries',
+                 'invalid handle ranges (start == 0 or start > end) may be answered with any Error Response'],
+    explanation='for each server declaration a hand-written expected attribute table (handle, type, group end, value) is the oracle; the real '
                 'l2cap_input is run on one request whose start/end handles, type UUID (2 and 16 byte encodings) and bound values are solver variables; the response '
                 'must be the Error Response Attribute Not Found iff the table has no match in range, otherwise a non-empty run of the matches starting with the first '
                 'one, with the right handles, UUIDs, group end handles and values; a second query shows on the oracle that iterating accepted responses enumerates '
                 'every match exactly once',
-    outside=['server declarations other than B1..B4', 'attributes that are not readable (no_read_access, encryption)', 'MTU values above 65',
+    outside=['server declarations other than B5..B7 (the cost of one query grows with the square of the number of attributes: 21 attributes did not finish in 13 minutes)',
+             'attributes that are not readable (no_read_access, encryption)', 'MTU values above 65',
              'Read By Group Type for <<Secondary Service>> (answered with Unsupported Group Type, accepted)'],
 )
